@@ -106,6 +106,15 @@ Definition lir_final_case (A : lsources) : list N :=
   [ b2n (lir_no_dangling A); len ts; len ss; len fv; len fc; len mn;
     len (ls_funcs A); len (ls_typedefs A); len (ls_globals A) ].
 
+(* the program right after generics specialisation: [ok; dangling types; strings; function values; callees; entry points]
+   followed by the numbers of the dangling callees, function values and types (for the message; their counts are in the
+   header) *)
+Definition mir_spec_case (B : msources) (ext : list N) : list N :=
+  let xf := fun f => memN (fn_id f) ext in
+  let '(ts, ss, fv, fc, mn) := mir_dangling_ext xf builtin_ty B in
+  [ b2n (mir_no_dangling_ext xf builtin_ty B); len ts; len ss; len fv; len fc; len mn; len (ms_funcs B); b2n (m_wf_b B) ]
+  ++ fc ++ fv ++ ts.
+
 (* ------------------------------------------------------------------ structural equality of MIR *)
 Definition mexpr_eqb (a b : mexpr) : bool :=
   match a, b with
